@@ -179,6 +179,10 @@ func loadProgram(opts LoadOpts) (*Program, error) {
 		return nil, err
 	}
 	p.V2 = p2
+	if !opts.NoSSA {
+		detectRenames(p)
+	}
+	detectFieldRenames(p)
 	return p, nil
 }
 
@@ -246,6 +250,21 @@ func (p *Program) progFor(path string) *Program {
 // Func resolves "pkgpath.Func" or "pkgpath.(*T).Method" / "pkgpath.(T).Method"
 // or "pkgpath.Func$1" (anonymous function by index).
 func (p *Program) Func(name string) *ssa.Function {
+	if fn := p.funcLookup(name); fn != nil {
+		return fn
+	}
+	// the reviewed function under a new name (inline.go: detectRenames)
+	base, anon := name, ""
+	if i := strings.Index(name, "$"); i >= 0 {
+		base, anon = name[:i], name[i:]
+	}
+	if fn := renamedTo[tableNameToID(base)]; fn != nil {
+		return p.funcLookup(fullFuncName0(fn) + anon)
+	}
+	return nil
+}
+
+func (p *Program) funcLookup(name string) *ssa.Function {
 	anon := ""
 	if i := strings.Index(name, "$"); i >= 0 {
 		anon = name[i+1:]
